@@ -74,3 +74,28 @@ Theorem C06_square_inv_pivots (F : fieldType) sq lt (d : vec F) (l u : tri F) :
   den (tn l) (Square d l u) *m den (tn l) (Square r.1.1 r.1.2 r.2) = 1%:M /\
   den (tn l) (Square r.1.1 r.1.2 r.2) *m den (tn l) (Square d l u) = 1%:M.
 Proof. exact: square_inv_sound. Qed.
+
+(* ---- right-hand sides of ANY rank (reshape wrapper, Model/Reshape.v): the wrapped substitution solves the system for every
+   multi-index of the trailing axes ---- *)
+From TinyGP Require Import Model.Reshape Theory.ReshapeThy Theory.ScanLemmas.
+Theorem C06_lower_solve_any_rank (F : fieldType) sq lt (d : vec F) (l : tri F) ds (y : seq (nd F)) (i : 'I_(tn l)) idx :
+  (forall k, (k < tn l)%N -> nth 0 d k != 0) -> size y = tn l -> all (shaped ds) y -> valid ds idx ->
+  \sum_(j < tn l) den (tn l) (Lower d l) i j
+      * get (fops sq lt) (nth (Sc 0) (wrap (fops sq lt) (lower_solve (fops sq lt) (prodn ds) d l) ds y) j) idx
+  = get (fops sq lt) (nth (Sc 0) y i) idx.
+Proof.
+move=> dnz sy al vi; apply: wrap_solve => //; first by rewrite /lower_solve /fscan size_scan_from size_iota.
+exact: lower_solve_den.
+Qed.
+Print Assumptions C06_lower_solve_any_rank.
+
+Theorem C06_upper_solve_any_rank (F : fieldType) sq lt (d : vec F) (u : tri F) ds (y : seq (nd F)) (i : 'I_(tn u)) idx :
+  (forall k, (k < tn u)%N -> nth 0 d k != 0) -> size y = tn u -> all (shaped ds) y -> valid ds idx ->
+  \sum_(j < tn u) den (tn u) (Upper d u) i j
+      * get (fops sq lt) (nth (Sc 0) (wrap (fops sq lt) (upper_solve (fops sq lt) (prodn ds) d u) ds y) j) idx
+  = get (fops sq lt) (nth (Sc 0) y i) idx.
+Proof.
+move=> dnz sy al vi; apply: wrap_solve => //; first by rewrite /upper_solve /bscan size_rev size_scan_from size_iota.
+exact: upper_solve_den.
+Qed.
+Print Assumptions C06_upper_solve_any_rank.
